@@ -250,6 +250,215 @@ def repay_moves(ctx):
     ctx.check("CANARY repay leaves debt", ctx.close(rest, debt, rel=REL))
 
 
+# ------------------------------------------------------------------------------------------------------------------
+# Inductive step: ONE operation (or one new bar) from an ARBITRARY valid portfolio.  Because the pre-state's scaled
+# balances, indices, prices and wallet are unconstrained symbols, what is proved here for one step holds after any
+# history of bars and operations: scaled balance moves by exactly +-amount/index_now, everything else stays, and the
+# reported balance is scaled x index of the bar that is current -- hence amount x index_now / index_then.
+
+
+def _op_call(ctx, w, op, tok, tok2, tag, amount=None, none_ok=True):
+    """one real operation; returns (accepted, stated amount or None, exception)"""
+    m, t = w.market, w.tok(tok)
+    use_none = none_ok and amount is None and ctx.flag(f"{tag}none")
+    a = None if use_none else (amount if amount is not None else ctx.dec(f"{tag}amt", 0, 10**10))
+    try:
+        if op == "supply":
+            if a is None:
+                a = ctx.dec(f"{tag}amt", 0, 10**10)
+            m.supply(t, a, w.ctx.p.get("coll_flag", True) if t not in m._supplies else m._supplies[t].collateral)
+        elif op == "withdraw":
+            m.withdraw(t, a)
+        elif op == "borrow":
+            m.borrow(t, a)
+        elif op == "repay":
+            m.repay(t, a)
+        elif op == "repay_coll":
+            m.repay(t, a, repay_with_collateral=True, repay_collateral_token=w.tok(tok2))
+        else:
+            raise ValueError(op)
+    except Exception as e:  # rejections of every documented kind
+        return False, a, e
+    return True, a, None
+
+
+def _frame(ctx, st0, st1, touched_sup=(), touched_bor=(), touched_wal=(), what=""):
+    """every component the operation does not name is left exactly as it was"""
+    items = []
+    for n in st0["sup"]:
+        if n not in touched_sup:
+            items.append((f"{what}: other supplies keep their scaled balance and flag", n in st1["sup"] and sand(st1["sup"][n][0] == st0["sup"][n][0], st1["sup"][n][1] == st0["sup"][n][1])))
+    for n in st0["bor"]:
+        if n not in touched_bor:
+            items.append((f"{what}: other debts keep their scaled balance", n in st1["bor"] and st1["bor"][n] == st0["bor"][n]))
+    for n in st0["wal"]:
+        if n not in touched_wal:
+            items.append((f"{what}: other wallet balances untouched", st1["wal"][n] == st0["wal"][n]))
+    items.append((f"{what}: no position appears for a token the operation does not name", set(st1["sup"]) - set(touched_sup) == set(st0["sup"]) - set(touched_sup) and set(st1["bor"]) - set(touched_bor) == set(st0["bor"]) - set(touched_bor)))
+    ctx.check_all(items)
+
+
+CL = D("1e-18")  # sub_base_amount's clamp: a scaled residue below 1e-18 is dropped
+
+
+def _scaled_after_sub(ctx, what, present, after, before, delta):
+    """scaled balance after subtracting delta: before - delta, or removed when the residue is below the 1e-18 clamp"""
+    if present:
+        ctx.check(f"{what}: scaled balance decreases by exactly amount / index", ctx.close(after, before - delta, rel=REL))
+        ctx.check(f"{what}: an entry that stays holds at least the 1e-18 clamp", after >= CL * (1 - D("1e-6")))
+    else:
+        ctx.check(f"{what}: the entry disappears only when nothing above the 1e-18 clamp is left", before - delta <= CL * (1 + D("1e-6")))
+
+
+def one_step(ctx):
+    from ..models.aave import sym_portfolio
+
+    p = ctx.p
+    op, tok, tok2 = p["op"], p["tok"], p["tok2"]
+    w = sym_portfolio(ctx, p["shape"])
+    li, bi, pr = w.row["li"], w.row["bi"], w.price
+    st0 = w.raw()
+    n_act = len(w.actions)
+    ok, a, exc = _op_call(ctx, w, op, tok, tok2, "")
+    st1 = w.raw()
+    if not ok:
+        ctx.outcome("rejected:" + type(exc).__name__)
+        from ..models.aave import states_equal
+
+        states_equal(ctx, st0, st1, f"{op} rejected")
+        return
+    ctx.outcome("accepted" + ("-all" if a is None else ""))
+    ctx.check(f"{op}: exactly one action recorded", len(w.actions) == n_act + 1)
+    act = w.actions[-1]
+    stated = act.amount  # what the operation says it moved
+    if a is not None and op != "repay_coll":
+        ctx.check(f"{op}: the action records the requested amount", act.amount == a)
+    ctx.check(f"{op}: moved amount is never negative", stated >= 0)
+    s0 = st0["sup"].get(tok, (D(0), None))[0]
+    b0 = st0["bor"].get(tok, D(0))
+    if op == "supply":
+        ctx.check("supply: scaled balance increases by exactly amount / liquidity index", tok in st1["sup"] and ctx.close(st1["sup"][tok][0], s0 + stated / li[tok], rel=REL))
+        _wallet_after(ctx, "supply: wallet decreases by exactly the stated amount", st1["wal"][tok], st0["wal"][tok], -stated)
+        ctx.check("supply: action deposit_after equals scaled balance x index", ctx.close(act.deposit_after, st1["sup"][tok][0] * li[tok], rel=REL))
+        _frame(ctx, st0, st1, (tok,), (), (tok,), "supply")
+    elif op == "withdraw":
+        if a is None:
+            ctx.check("withdraw(None): withdraws the whole balance", ctx.close(stated, s0 * li[tok], rel=REL))
+            ctx.check("withdraw(None): the supply entry disappears", tok not in st1["sup"])
+        present = tok in st1["sup"]
+        _scaled_after_sub(ctx, "withdraw", present, st1["sup"][tok][0] if present else None, s0, stated / li[tok])
+        ctx.check("withdraw: wallet increases by exactly the stated amount", st1["wal"][tok] == st0["wal"][tok] + stated)
+        ctx.check("withdraw: never more than the balance", stated <= s0 * li[tok] * (1 + REL))
+        rest = st1["sup"][tok][0] * li[tok] if present else D(0)
+        ctx.check("withdraw: action deposit_after equals scaled balance x index", ctx.close(act.deposit_after, rest, rel=REL))
+        _frame(ctx, st0, st1, (tok,), (), (tok,), "withdraw")
+    elif op == "borrow":
+        ctx.check("borrow: scaled debt increases by exactly amount / borrow index", tok in st1["bor"] and ctx.close(st1["bor"][tok], b0 + stated / bi[tok], rel=REL))
+        ctx.check("borrow: wallet increases by exactly the stated amount", st1["wal"][tok] == st0["wal"][tok] + stated)
+        ctx.check("borrow: action debt_after equals scaled debt x index", ctx.close(act.debt_after, st1["bor"][tok] * bi[tok], rel=REL))
+        _frame(ctx, st0, st1, (), (tok,), (tok,), "borrow")
+    elif op == "repay":
+        if a is None:
+            ctx.check("repay(None): repays the whole debt", ctx.close(stated, b0 * bi[tok], rel=REL))
+            ctx.check("repay(None): the debt entry disappears", tok not in st1["bor"])
+        present = tok in st1["bor"]
+        _scaled_after_sub(ctx, "repay", present, st1["bor"][tok] if present else None, b0, stated / bi[tok])
+        _wallet_after(ctx, "repay: wallet decreases by exactly the stated amount", st1["wal"][tok], st0["wal"][tok], -stated)
+        ctx.check("repay: never more than the debt (1e-18 scaled rounding)", stated / bi[tok] <= b0 + D("6e-19"))
+        rest = st1["bor"][tok] * bi[tok] if present else D(0)
+        ctx.check("repay: action debt_after equals scaled debt x index", ctx.close(act.debt_after, rest, rel=REL))
+        _frame(ctx, st0, st1, (), (tok,), (tok,), "repay")
+    elif op == "repay_coll":
+        c0 = st0["sup"][tok2][0]
+        want = a if a is not None else b0 * bi[tok]
+        worth = c0 * li[tok2] * pr[tok2] / pr[tok]  # what the whole collateral position buys of the debt token
+        ctx.check("repay with collateral: repays the request, or what the collateral is worth when that is less", ctx.close(stated, ite(want * pr[tok] / pr[tok2] > c0 * li[tok2], worth, want), rel=REL))
+        presentb = tok in st1["bor"]
+        _scaled_after_sub(ctx, "repay with collateral (debt)", presentb, st1["bor"][tok] if presentb else None, b0, stated / bi[tok])
+        presents = tok2 in st1["sup"]
+        _scaled_after_sub(ctx, "repay with collateral (collateral)", presents, st1["sup"][tok2][0] if presents else None, c0, stated * pr[tok] / pr[tok2] / li[tok2])
+        ctx.check("repay with collateral: the wallet is untouched", sand(*[st1["wal"][n] == st0["wal"][n] for n in st0["wal"]]))
+        if presents:
+            ctx.check("repay with collateral: collateral flag kept", st1["sup"][tok2][1] == st0["sup"][tok2][1])
+        if a is None:
+            ctx.check("repay(None) with enough collateral: the debt entry disappears", sor(want * pr[tok] / pr[tok2] > c0 * li[tok2], not presentb))
+        _frame(ctx, st0, st1, (tok2,), (tok,), (), "repay with collateral")
+    # ---- a later bar: every reported balance is the scaled balance times the index of THAT bar
+    li2 = {n: ctx.dec(f"li2_{n}", 1, 8) for n in w.names}
+    bi2 = {n: ctx.dec(f"bi2_{n}", 1, 8) for n in w.names}
+    for n in w.names:
+        ctx.assume(sand(li2[n] >= li[n], bi2[n] >= bi[n]))
+    w.set_row(li2, bi2, pr)
+    st2 = w.raw()
+    items = [("new bar: scaled balances, flags and wallet are not touched by a bar change", st2["sup"].keys() == st1["sup"].keys() and st2["bor"].keys() == st1["bor"].keys() and sand(*([st2["sup"][n][0] == st1["sup"][n][0] for n in st1["sup"]] + [st2["bor"][n] == st1["bor"][n] for n in st1["bor"]] + [st2["wal"][n] == st1["wal"][n] for n in st1["wal"]] + [True])))]
+    for n in st1["sup"]:
+        items.append(("later bar: get_supply().amount == scaled balance x liquidity index of that bar", ctx.close(w.market.get_supply(w.tok(n)).amount, st1["sup"][n][0] * li2[n], rel=REL)))
+        items.append(("later bar: supplies view agrees", ctx.close(w.market.supplies[w.tok(n)].amount, st1["sup"][n][0] * li2[n], rel=REL)))
+    for n in st1["bor"]:
+        items.append(("later bar: get_borrow().amount == scaled debt x borrow index of that bar", ctx.close(w.market.get_borrow(w.tok(n)).amount, st1["bor"][n] * bi2[n], rel=REL)))
+        items.append(("later bar: borrows view agrees", ctx.close(w.market.borrows[w.tok(n)].amount, st1["bor"][n] * bi2[n], rel=REL)))
+    ctx.check_all(items)
+    if st1["sup"] or st1["bor"]:
+        n = next(iter(st1["sup"])) if st1["sup"] else None
+        if n:
+            ctx.check("CANARY balances ignore the index", ctx.close(w.market.get_supply(w.tok(n)).amount, st1["sup"][n][0] * li[n], rel=REL))
+        else:
+            n = next(iter(st1["bor"]))
+            ctx.check("CANARY balances ignore the index", ctx.close(w.market.get_borrow(w.tok(n)).amount, st1["bor"][n] * bi[n], rel=REL))
+
+
+def split_merge(ctx):
+    """op(a1) ; op(a2)  versus  op(a1 + a2) from the same arbitrary portfolio, same bar: same state beyond 1e-18"""
+    from ..models.aave import sym_portfolio
+
+    p = ctx.p
+    op, tok, tok2 = p["op"], p["tok"], p["tok2"]
+    w = sym_portfolio(ctx, p["shape"])
+    st0 = w.raw()
+    w2 = AaveWorld(ctx, w.names)
+    w2.set_row(w.row["li"], w.row["bi"], w.price)
+    w2.install_state(st0["sup"], st0["bor"])
+    for n in w.names:
+        w2.broker.set_balance(w2.tok(n), st0["wal"][n])
+    a1 = ctx.dec("a1", D("1e-6"), 10**9)
+    a2 = ctx.dec("a2", D("1e-6"), 10**9)
+    okm, _, _ = _op_call(ctx, w2, op, tok, tok2, "m_", amount=a1 + a2)
+    ok1, _, _ = _op_call(ctx, w, op, tok, tok2, "s1_", amount=a1)
+    ok2 = False
+    if ok1:
+        ok2, _, e2 = _op_call(ctx, w, op, tok, tok2, "s2_", amount=a2)
+    ctx.outcome(f"merged={'ok' if okm else 'rej'} split={'ok' if ok1 and ok2 else 'rej'}")
+    if okm and op in ("withdraw", "borrow", "repay"):
+        # what is accepted in one piece is accepted in two, unless the first piece leaves only clamp-size dust
+        if op == "withdraw":
+            left = st0["sup"][tok][0] - a1 / w.row["li"][tok]
+        elif op == "repay":
+            left = st0["bor"][tok] - a1 / w.row["bi"][tok]
+        else:
+            left = None
+        # (a repayment that the wallet covers only thanks to its own 1e-5 snap is the wallet's business, not Aave's)
+        snapped = sor(a1 + a2 > st0["wal"][tok], st0["wal"][tok] - a1 < D("1.0001e-5") * st0["wal"][tok]) if op == "repay" else False
+        ctx.check(f"{op}: what is accepted merged is accepted split", sor(ok1 and ok2, (left <= CL * 2) if left is not None else False, snapped))
+    if not (okm and ok1 and ok2):
+        return
+    sa, sb = w.raw(), w2.raw()
+    items = [("split vs merged: same set of positions (beyond 1e-18 dust)", True)]
+    idx = w.row
+    for part, key_idx in (("sup", "li"), ("bor", "bi")):
+        for n in set(sa[part]) | set(sb[part]):
+            va = (sa[part][n][0] if part == "sup" else sa[part][n]) if n in sa[part] else D(0)
+            vb = (sb[part][n][0] if part == "sup" else sb[part][n]) if n in sb[part] else D(0)
+            items.append((f"split vs merged: scaled {'supply' if part == 'sup' else 'debt'} agrees within 1e-18", ctx.close(va, vb, rel=REL, abs_=CL * 2)))
+    for n in sa["wal"]:
+        # the wallet's own 1e-5 snap (Asset.sub) may fire in one variant only
+        exact = ctx.close(sa["wal"][n], sb["wal"][n], rel=REL)
+        snap = sor(sand(sa["wal"][n] == 0, sb["wal"][n] <= D("1.0001e-5") * st0["wal"][n]), sand(sb["wal"][n] == 0, sa["wal"][n] <= D("1.0001e-5") * st0["wal"][n]))
+        items.append(("split vs merged: wallet agrees (up to the wallet's 1e-5 snap)", sor(exact, snap)))
+    ctx.check_all(items)
+    ctx.check("CANARY split changes the state", ctx.close(sa["wal"][tok], st0["wal"][tok], rel=REL))
+
+
+
 def scenarios(tier):
     e = ("AaveV3Market.supply", "withdraw", "borrow", "repay", "set_market_status", "get_supply", "get_borrow")
     out = []
@@ -260,4 +469,21 @@ def scenarios(tier):
             Scenario("borrow_accrual" + tag, borrow_accrual, params=prm, shadows=SHADOWS, entry=e, canary="CANARY debt ignores index", expect_outcomes=("accepted",)),
             Scenario("repay_moves" + tag, repay_moves, params=prm, shadows=SHADOWS, entry=e, canary="CANARY repay leaves debt", expect_outcomes=("accepted", "rejected")),
         ]
+    from ..models.aave import SHAPES_QUICK, SHAPES_THOROUGH
+    from ..models.aave_ops import op_targets
+
+    shapes = {k: SHAPES_QUICK[k] for k in ("A", "B", "C")} if tier == "quick" else SHAPES_THOROUGH
+    for sn, shape in shapes.items():
+        for op in ("supply", "withdraw", "borrow", "repay", "repay_coll"):
+            for tok, tok2 in op_targets(shape, op):
+                if op == "repay_coll" and not (shape[tok][1] and shape[tok2][0]):
+                    continue  # needs a debt and a supply to be more than a rejection
+                if op in ("withdraw",) and not shape[tok][0]:
+                    continue
+                if op in ("repay",) and not shape[tok][1]:
+                    continue
+                nm = f"{sn}/{op}/{tok}{'/' + tok2 if tok2 else ''}"
+                out.append(Scenario("step/" + nm, one_step, params=dict(shape=shape, op=op, tok=tok, tok2=tok2), shadows=SHADOWS, entry=e, max_paths=600, witness_cap=8, canary=None if (op == "repay_coll" and shape[tok2][0] != "C") else "CANARY balances ignore the index"))
+                if tier != "quick" or sn in ("A", "B"):
+                    out.append(Scenario("split/" + nm, split_merge, params=dict(shape=shape, op=op, tok=tok, tok2=tok2), shadows=SHADOWS, entry=e, max_paths=600, witness_cap=8))
     return out
